@@ -553,7 +553,7 @@ impl Check for C20 {
         vec!["const-generic capacities are instantiated from a fixed menu {0,1,8,64,1024,65535}; inputs are sized around them".into(), "the reply publication is sent on an auxiliary session (the inbound message keeps the receiving connection borrowed)".into()]
     }
     fn workloads(&self) -> Vec<Workload> {
-        vec![Workload { name: "reply", quick: 2500, thorough: 150_000 }]
+        vec![Workload { name: "reply", quick: 2500, thorough: 3_000_000 }]
     }
     fn min_nontrivial(&self, tier: Tier) -> usize {
         if tier == Tier::Quick { 200 } else { 2000 }
